@@ -44,6 +44,13 @@ ASSUMPTIONS = [
     "dihedral) are class EITHER: any value or NaN, but no exception",
     "is_orthogonal is only probed on boxes with edge lengths 2..9 whose pairwise dot products are exactly 0 or "
     ">= 0.5 in magnitude (its documented absolute tolerance 1e-6 is not probed)",
+    "audit families: 'models' per-model boxes for 1..1000 models with pairwise different boxes; 'order' reversed "
+    "argument order and index arrays in other dtypes / layouts (differential); 'alias' no anchored function modifies an "
+    "array / AtomArray argument, documented copies do not share memory, a second call gives the same result, refused "
+    "calls leave arguments alone; 'flavour' every float32 array argument also as float64 / Fortran / strided / read-only "
+    "/ integer / list (lists for boxes, index arrays and the box helpers are class EITHER); 'edge' empty inputs are "
+    "class EITHER (exception or correctly shaped empty result), one atom / one model / amount 0 are ordinary inputs; "
+    "derived boxes rot:/perm:/skew: (rigidly turned cells, permuted rows, a.b straddling is_orthogonal's documented 1e-6)",
     "remove_pbc: the bonded-pair demand is made for (graph, geometry) pairs whose true bonded distances are all "
     "below half the smallest box height (the unwrapped molecule is then uniquely determined); other graphs only "
     "have to move atoms by lattice vectors",
